@@ -99,8 +99,8 @@ func (s *sim) monQuiescent() {
 		}
 		var supply *big.Int
 		for _, v := range confirmed {
-			if isTrusted(&snap, v.SignerPublicAddress) {
-				trustedSealed = true
+			if isTrusted(&snap, v.SignerPublicAddress) || n.everTrusted[v.SignerPublicAddress] {
+				trustedSealed = true // sealed (possibly) under the trusted-node exemption: outside the property's confirmed set
 			}
 			if v.Transaction.IssuerAddress == snap.Genesis && v.LeftParentHash == [32]byte{} {
 				if supply == nil {
